@@ -407,11 +407,10 @@ func (c *Real32) LogBesselI(v float64, b ConstScalar) Scalar {
   }
   f2 := func() float64 {
     v1 := special.LogBesselI(v-1.0, x)
-    v2 := special.LogBesselI(v-2.0, x)
-    v3 := special.LogBesselI(v+2.0, x)
-    t1 := 0.25*(math.Exp(v2-v0) + 2.0 + math.Exp(v3-v0))
+    // I_v solves x^2 I'' + x I' - (x^2 + v^2) I = 0, this gives I''/I
+    // without I_{v-2}, which is negative for some non-integer v < 2
     t2 := math.Exp(v1-v0) - v/x
-    return t1 - t2*t2
+    return 1.0 + v*v/(x*x) - t2/x - t2*t2
   }
   return c.monadicLazy(b, v0, f1, f2)
 }
